@@ -1,0 +1,24 @@
+//go:build verif
+
+package value
+
+// VerifMethodArities returns, for every registered type id, the methods with the number of
+// arguments a call site has to supply (-1 = variable).
+func VerifMethodArities(fg *FunctionGenerator) map[int]map[string]int {
+	res := map[int]map[string]int{}
+	for id, mm := range fg.methods {
+		if mm == nil {
+			continue
+		}
+		m := map[string]int{}
+		for name, f := range mm {
+			a := f.Args
+			if a > 0 {
+				a--
+			}
+			m[name] = a
+		}
+		res[id] = m
+	}
+	return res
+}
